@@ -282,6 +282,8 @@ def run(ctx):
     ctx.count("corpus-programs", len(corpus))
     records = progcases.run_cases(ctx, corpus + make_cases(ctx, n, big=True))
     canon_tie(ctx, records)
+    # dimension sweeps: (nearly) every size along every dimension, all of them in the thorough tier, a seeded third in the quick tier
+    progcases.run_cases(ctx, gen.sweep_cases(ctx.rng, 1.0 if ctx.tier == "thorough" else 0.34))
     progcases.run_cases(ctx, gen.membership_cases(ctx.rng, 60 if ctx.tier == 'quick' else 1500), check_model=False, want_stages=False)
     run_k1(ctx)
 
